@@ -128,7 +128,7 @@ PROPS = {
     },
     "C04": {
         "level": "proof",
-        "verus": ["c04_find_value"],
+        "verus": ["c04_find_value", "c04_count_arg"],
         "kani": [KANI_RANGES, KANI_RANGES_MULTIPLE],
         "assumptions": [],
         "trusted_base": [],
